@@ -119,6 +119,17 @@ type MySessGen struct {
 	Quote bool
 	// Interleave makes some explicitly prepared SELECTs be executed after another statement was prepared and executed.
 	Interleave bool
+	// Upserts adds INSERT ... ON DUPLICATE KEY UPDATE to Next().
+	Upserts bool
+	// ColVal, when set, draws the value written to a column (searchable-column pools of the C09 layer).
+	ColVal func(t TableSpec, c ColSpec) Val
+}
+
+func (g *MySessGen) colVal(t TableSpec, c ColSpec) Val {
+	if g.ColVal != nil {
+		return g.ColVal(t, c)
+	}
+	return GenColVal(g.R, c)
 }
 
 // NewMySessGen creates a generator.
@@ -215,7 +226,7 @@ func (g *MySessGen) Insert() MyStep {
 			if c.Name == "id" {
 				v = Val{Type: fakepg.Int4, I: int64(id)}
 			} else {
-				v = GenColVal(r, c)
+				v = g.colVal(t, c)
 			}
 			if c.Configured() && !v.Null {
 				st.Writes = append(st.Writes, Written{t.Name, c.Name, v})
@@ -281,7 +292,7 @@ func (g *MySessGen) Update() MyStep {
 		if r.Intn(3) != 0 {
 			continue
 		}
-		v := GenColVal(r, c)
+		v := g.colVal(t, c)
 		if c.Configured() && !v.Null {
 			st.Writes = append(st.Writes, Written{t.Name, c.Name, v})
 		}
@@ -389,6 +400,9 @@ func (g *MySessGen) Next() MyStep {
 		total += len(ids)
 	}
 	x := g.R.Intn(100)
+	if g.Upserts && total >= 2 && g.R.Intn(10) == 0 {
+		return g.Upsert()
+	}
 	switch {
 	case total < 2 || x < 45:
 		return g.Insert()
@@ -399,6 +413,145 @@ func (g *MySessGen) Next() MyStep {
 	default:
 		return g.Select()
 	}
+}
+
+// Upsert generates INSERT ... VALUES ... ON DUPLICATE KEY UPDATE (the id column is the key): keys that exist (the assignments
+// run) and new ones (the row is inserted), single and multi-row, assignments to unprotected columns (literal, the column itself,
+// id = id + 0, VALUES(col)) and to protected columns (literal / placeholder, VALUES(col)), alone and mixed.
+func (g *MySessGen) Upsert() MyStep {
+	r := g.R
+	t := g.table()
+	st := MyStep{Kind: "insert", Table: t.Name}
+	useParams := r.Intn(2) == 0
+	schemaOrder := r.Intn(4) == 0
+	var cols []ColSpec
+	if schemaOrder {
+		cols = t.Cols
+	} else {
+		cols = append(cols, t.Cols[0])
+		for _, c := range t.Cols[1:] {
+			if r.Intn(4) != 0 {
+				cols = append(cols, c)
+			}
+		}
+		r.Shuffle(len(cols), func(i, j int) { cols[i], cols[j] = cols[j], cols[i] })
+	}
+	inList := map[string]bool{}
+	for _, c := range cols {
+		inList[c.Name] = true
+	}
+	nrows := 1
+	if r.Intn(4) == 0 {
+		nrows = 2
+	}
+	var params []myBound
+	var rowsSQL []string
+	used := map[int]bool{}
+	keyKinds := ""
+	for i := 0; i < nrows; i++ {
+		id := 0
+		ids := g.IDs[t.Name]
+		if len(ids) > 0 && r.Intn(3) != 0 {
+			id = ids[r.Intn(len(ids))]
+		}
+		if id == 0 || used[id] {
+			g.nextID[t.Name]++
+			id = g.nextID[t.Name]
+			for used[id] {
+				g.nextID[t.Name]++
+				id = g.nextID[t.Name]
+			}
+			g.IDs[t.Name] = append(g.IDs[t.Name], id)
+			keyKinds += ",new-key"
+		} else {
+			keyKinds += ",existing-key"
+		}
+		used[id] = true
+		var vals []string
+		for _, c := range cols {
+			var v Val
+			if c.Name == "id" {
+				v = Val{Type: fakepg.Int4, I: int64(id)}
+			} else {
+				v = g.colVal(t, c)
+			}
+			if c.Configured() && !v.Null {
+				st.Writes = append(st.Writes, Written{t.Name, c.Name, v})
+			}
+			vals = append(vals, g.expr(v, useParams && r.Intn(3) == 0, &params, c))
+		}
+		rowsSQL = append(rowsSQL, "("+strings.Join(vals, ", ")+")")
+	}
+	sql := "insert into " + g.ident(t.Name)
+	if !schemaOrder {
+		var names []string
+		for _, c := range cols {
+			names = append(names, g.ident(c.Name))
+		}
+		sql += " (" + strings.Join(names, ", ") + ")"
+	}
+	sql += " values " + strings.Join(rowsSQL, ", ") + " on duplicate key update "
+	var unprot, prot []ColSpec
+	for _, c := range t.Cols[1:] {
+		if c.Configured() {
+			prot = append(prot, c)
+		} else {
+			unprot = append(unprot, c)
+		}
+	}
+	var assigns []string
+	assigned := map[string]bool{}
+	protLiteral := false
+	n := 1 + r.Intn(3)
+	for k := 0; k < n; k++ {
+		switch x := r.Intn(10); {
+		case x < 2 && !assigned["id"]:
+			assigned["id"] = true
+			assigns = append(assigns, "id = id + 0")
+		case x < 7 && len(unprot) > 0:
+			c := unprot[r.Intn(len(unprot))]
+			if assigned[c.Name] {
+				continue
+			}
+			assigned[c.Name] = true
+			switch y := r.Intn(3); {
+			case y == 0:
+				assigns = append(assigns, c.Name+" = "+c.Name)
+			case y == 1 && inList[c.Name]:
+				assigns = append(assigns, c.Name+" = VALUES("+c.Name+")")
+			default:
+				assigns = append(assigns, g.ident(c.Name)+" = "+g.expr(g.colVal(t, c), useParams && r.Intn(2) == 0, &params, c))
+			}
+		case len(prot) > 0:
+			c := prot[r.Intn(len(prot))]
+			if assigned[c.Name] {
+				continue
+			}
+			assigned[c.Name] = true
+			if r.Intn(3) == 0 && inList[c.Name] {
+				assigns = append(assigns, c.Name+" = VALUES("+c.Name+")")
+				continue
+			}
+			v := g.colVal(t, c)
+			if !v.Null {
+				st.Writes = append(st.Writes, Written{t.Name, c.Name, v})
+			}
+			protLiteral = true
+			assigns = append(assigns, g.ident(c.Name)+" = "+g.expr(v, useParams && r.Intn(2) == 0, &params, c))
+		}
+	}
+	if len(assigns) == 0 {
+		assigns = append(assigns, "id = id")
+	}
+	sql += strings.Join(assigns, ", ")
+	if protLiteral {
+		st.Tag = "upsert:assigns-protected-value"
+	} else {
+		st.Tag = "upsert:assigns-only-unprotected-or-non-literal"
+	}
+	st.Tag += keyKinds
+	g.finish(&st, sql, params)
+	return st
 }
 
 // RunMyStep sends one step over a client and returns the result(s): one per execution (a re-executed prepared SELECT yields two).
